@@ -13,7 +13,7 @@ CHECKS = {
              "(exhaustive for that finite sub-domain) and every compatibility predicate is compared with dimension vectors computed by an "
              "independent reader of the definition files; spellings, compound units with integer/rational exponents, closure laws and "
              "registry configurations are sampled. Establishes the property on the enumerated pairs, samples the rest.",
-        note="Trusts R (vf/oracle/defreader.py, no pint code) as reader of default_en.txt; compound units, spellings and configurations are sampled, not exhausted.",
+        note="Trusts R (vf/oracle/defreader.py, no pint code) as reader of default_en.txt; compound units, spellings and configurations are sampled, not exhausted. Later additions: keyword-order permutations for ureg.check, generated registries loaded through every path of C10 (file, @import, on-disk caches), cross-process warm-cache listing check.",
         design="5/C01"),
     "C02": dict(
         technique="bounded-exhaustive enumeration of same-dimension unit pairs in Fraction/Decimal/float registries + Hypothesis compound units; differential oracle = exact rational ratio from an independent definition reader; algebraic laws (identity, inverse, path independence)",
@@ -21,7 +21,7 @@ CHECKS = {
              "configurations, twice and in both orders, and compared with the exact Fraction ratio computed by R: == and int/Fraction type in the "
              "Fraction registry, 1e-26 relative in Decimal, (16+4n) ulp in float. Prefix x spelling x plural strings, root-unit expansions, "
              "conversion laws and compound units are enumerated/sampled. Exhaustive on the pair domain, sampling beyond it.",
-        note="R reads the same definition files (wrong literals in the files are C20's); 29 float-tainted units (fractional power of a scale) are compared with the float tolerance in every registry type.",
+        note="R reads the same definition files (wrong literals in the files are C20's); 29 float-tainted units (fractional power of a scale) are compared with the float tolerance in every registry type. Later additions: agreement of every entry point of one conversion (to/ito/m_as, context name passed along, ndarray, in place, integer ndarray in place) with ureg.convert; generated registries through all load paths.",
         design="5/C02"),
     "C03": dict(
         technique="Hypothesis expression trees over quantities evaluated under two unit assignments (metamorphic relation) and against a reference evaluation over exact (value, dimension) pairs; operator-form differential (plain vs reflected vs in-place) with operand snapshots",
@@ -30,7 +30,7 @@ CHECKS = {
              "Fraction registry both evaluations and the reference model must agree exactly (value, dimension, error class, no float contamination); in the "
              "float registry agreement is required within a propagated error bound, away from ties. Reflected and in-place forms (scalars and ndarrays) "
              "must equal the plain form and leave every operand but the in-place target untouched. Sampling only.",
-        note="Leaf units are restricted to rational, positively scaled multiplicative units; ill-conditioned float trees (near-zero divisors, nested powers > 4) are skipped and counted. One known finding (int ** negative power) is excluded by construction in the tree tier and reported by the forms tier.",
+        note="Leaf units are restricted to rational, positively scaled multiplicative units; ill-conditioned float trees (near-zero divisors, nested powers > 4) are skipped and counted. One known finding (int ** negative power) is excluded by construction in the tree tier and reported by the forms tier. Later additions: comparisons across offset units (offsetcmp), exact Fraction magnitudes in the float registry, auto_reduce_dimensions configuration, bare-number ordering/equality.",
         design="5/C03"),
     "C04": dict(
         technique="bounded-exhaustive enumeration of unit containers over a 3-letter alphabet (all ordered pairs, sampled triples) in 3 exponent types x 3 layers against a dict model of the free abelian group; Hypothesis containers over real unit names; Hypothesis integer matrices for pi-theorem with own Fraction rank/null-space oracle",
@@ -38,7 +38,7 @@ CHECKS = {
              "UnitsContainer, ParserHelper and Unit/Quantity layers for int/float, Decimal and Fraction exponents; each result must equal the dict model, "
              "carry no zero entry, hash equal when equal and leave operands untouched. Dimensionality homomorphism is checked against R. pi_theorem results "
              "must be dimensionless, independent and of size n - rank. Exhaustive over the pair domain in the thorough tier, seed-strided in quick.",
-        note="Float/Decimal exponents restricted to dyadic rationals (no rounding artefacts). Integrality of pi-theorem exponents is not part of the statement and not asserted.",
+        note="Float/Decimal exponents restricted to dyadic rationals (no rounding artefacts). Integrality of pi-theorem exponents is not part of the statement and not asserted. Later additions: in-pint dimensionality homomorphism and exponent types, dimensionality of containers of derived dimension names, mixed ParserHelper/UnitsContainer/dict operands.",
         design="5/C04"),
     "C05": dict(
         technique="Hypothesis pairs/triples of quantities per dimension class with exact re-expression in other units (Fraction registry); oracle = exact base values and affine maps from an independent definition reader; equivalence, hash and trichotomy laws",
@@ -47,7 +47,7 @@ CHECKS = {
              "away from ties and NaN. ==/!= must equal 'same R-dimension and equal R-value', be symmetric/transitive, equal quantities must hash equal "
              "(also to the bare number they equal), exactly one of <,==,> must hold in agreement with the base values, ordering across dimensions must raise "
              "DimensionalityError. Sampling (thousands of cases per run), no exhaustive sub-domain.",
-        note="Units with non-rational or negative factors are excluded from exact/ordering clauses; Quantity == Unit (as opposed to Unit == Quantity) is outside the statement.",
+        note="Units with non-rational or negative factors are excluded from exact/ordering clauses; Quantity == Unit (as opposed to Unit == Quantity) is outside the statement. Later additions: compound units with neighbouring exponents, quantities changed in place (incl. temperatures converted in place) compared with freshly built ones, active contexts (ordering across dimensions raises, == is False).",
         design="5/C05"),
     "C06": dict(
         technique="Hypothesis over all ordered pairs of temperature-like units (bundled + generated rational offset units) x operators x registry modes against a reference model of the documented offset calculus and the exact affine maps from an independent definition reader; defining log maps for logarithmic units; functional-vs-in-place differential on ndarrays",
@@ -57,7 +57,7 @@ CHECKS = {
              "from nonmult.rst) or OffsetUnitCalculusError. ndarray in-place forms must equal the functional forms and leave the other operand untouched; "
              "compound units containing an offset unit never convert to another dimension. Log units are checked against x_lin = scale*base**(x/factor), "
              "inverses, scalar vs in-place array conversion, and well-formedness of arithmetic results. Sampling over a small finite unit set x random magnitudes.",
-        note="Arithmetic on logarithmic units is documented only through conversions: validity predicate, one known finding (delta_<log unit> undefined).",
+        note="Arithmetic on logarithmic units is documented only through conversions: validity predicate, one known finding (delta_<log unit> undefined). Later additions: right operands with a dimensionless scale in their units, parse_units(text, as_delta=...) relations for compound and powered offset strings.",
         design="5/C06"),
     "C07": dict(
         technique="bounded-exhaustive enumeration of expression trees x spelling variants with a Python-operator evaluation of the tree as oracle; Hypothesis larger trees in float/Decimal/Fraction registries; mutation-based malformed inputs; audit-hook monitored parsing of hostile and random strings; coverage-guided atheris/libFuzzer campaigns (thorough tier) with an audit-hook, a Python-grammar differential and a structural oracle inside the target",
@@ -66,7 +66,7 @@ CHECKS = {
              "whitespace) and must parse to the value/type/error class of the tree evaluated with Python operators. Word forms, larger random trees in all three "
              "numeric configurations, every +/- / a(b) uncertainty notation with signs and exponents, malformed strings (must raise) and a sys.addaudithook "
              "monitor over hostile/random strings (no exec/compile/import/open/os/socket events, no foreign objects returned) complete the check.",
-        note="The no-execution clause is a universally quantified negative: the audit-hook oracle is precise but the input search is evidence, not proof. CPython's own attempt to open a file literally named '<string>' when the tokenizer raises SyntaxError is allowed.",
+        note="The no-execution clause is a universally quantified negative: the audit-hook oracle is precise but the input search is evidence, not proof. CPython's own attempt to open a file literally named '<string>' when the tokenizer raises SyntaxError is allowed. Later additions: blank-free juxtaposition, digit-group underscores, operators dangling before a closing parenthesis, results of a parse mutated in place before the next parse (alias).",
         design="5/C07"),
     "C08": dict(
         technique="bounded-exhaustive enumeration of all prefix x spelling x plural strings (1.3e5) against the decomposition rule computed by an independent definition reader; Hypothesis mutated/random strings; op-sequence (model-based) lookup histories compared with fresh registries; cross-process determinism probe",
@@ -75,7 +75,7 @@ CHECKS = {
              "mutated and random identifiers must be rejected; case variants are checked with case_sensitive=False per call and per registry and under 4 hash "
              "seeds in sub-processes; offset units in compound strings x as_delta/default_as_delta; lookup histories must answer like a fresh registry. "
              "The cross product is exhaustive; the rest is sampled.",
-        note="Among several genuine readings of one string only membership and determinism are asserted (the statement does not rank them). Two known findings (double prefixes) are listed in known_findings.json.",
+        note="Among several genuine readings of one string only membership and determinism are asserted (the statement does not rank them). Two known findings (double prefixes) are listed in known_findings.json. Later additions: spellings added after construction (@alias / define / load_definitions) in case-sensitive and case-insensitive registries.",
         design="5/C08"),
     "C09": dict(
         technique="complete enumeration of every canonical unit x 7 format specs x {long, ~} with layout-specific inverse parsers (structural oracle) and parse-back round trips; Hypothesis compound units / quantities in float, Decimal and Fraction registries; op-sequence check of default_format changes on long-lived objects",
@@ -84,7 +84,7 @@ CHECKS = {
              "D/C/P text must parse_units back to an equal unit (symbols only when R reads them back uniquely). Compound units with integer/fractional "
              "exponents in all three numeric configurations, quantities with magnitude specs, str(q)/Quantity(str) round trips, the '#' modifier, "
              "default_format sequences on held objects and sort functions are sampled. Formatting must never raise or alter its argument.",
-        note="Babel-localised output is outside the statement. One known finding: '%' / per-mille followed by a superscript in '~P'.",
+        note="Babel-localised output is outside the statement. One known finding: '%' / per-mille followed by a superscript in '~P'. Later additions: quantity default formats incl. '#', exponents/magnitudes using every digit, LaTeX magnitude oracle, formatting inside a context that redefines a unit, symbols taken from the independent definition reader.",
         design="5/C09"),
     "C10": dict(
         technique="complete comparison of the bundled definition files with an independent reader; Hypothesis model-first generated definition files rendered in permuted/variant layouts and loaded through five paths x three numeric types (model oracle + differential between paths); fault injection from a catalogue of ill-formed statements",
@@ -94,7 +94,7 @@ CHECKS = {
              "rendered with permuted unit/prefix lines, spacing, comments and literal spellings and loaded from a list of lines, a file, define() calls, a file with "
              "@import and a cold+warm disk cache; every answer must equal the model and agree across paths. (c) One ill-formed statement out of 25 kinds is "
              "inserted at a random place: loading or the first use of the name must raise.",
-        note="Generated contexts are exercised by C11/C12. Units added via define() are not asked for compatible-unit listings (known finding of C13).",
+        note="Generated contexts are exercised by C11/C12. Units added via define() are not asked for compatible-unit listings (known finding of C13). Later additions: load paths cache_lines / cache_import with decoy definition sets, @defaults, @alias directives, case-insensitive table, power rules in @system, cross-process cache check (xcache).",
         design="5/C10"),
     "C11": dict(
         technique="Hypothesis over bundled and randomly generated contexts (rule graphs with monomial equations, parameters, overlapping rules, redefinitions) x activation forms x stacks; reference oracle = own BFS over dimension vectors (all shortest chains, recency precedence) with exact evaluation of the rule equations using factors from an independent definition reader",
@@ -103,7 +103,7 @@ CHECKS = {
              "contexts passed to to()/ito(), decorator, nested blocks, alias, Context object). The result must equal the exact value of some shortest chain found "
              "by the oracle's BFS with the most recently enabled rule per edge, unreachable targets must raise DimensionalityError, same-dimension conversions are "
              "unchanged, no context may stay active. Redefinitions must apply to the unit and its dependants exactly while active (also nested and with keywords).",
-        note="Parameter inheritance with several enclosing contexts that disagree is under-specified by the statement: skipped and counted.",
+        note="Parameter inheritance with several enclosing contexts that disagree is under-specified by the statement: skipped and counted. Later additions: derived dimension names in rules; contexts built with from_lines without a to-base function and with Context() + add_transformation.",
         design="5/C11"),
     "C12": dict(
         technique="model-based (stateful) testing: bounded-exhaustive breadth-first enumeration of operation sequences over a 21-letter alphabet on a fresh tiny registry, plus Hypothesis random sequences, each interpreted next to a reference stack model with a probe battery after every step; fault injection through four kinds of invalid activation",
@@ -113,7 +113,7 @@ CHECKS = {
              "get_root_units, to_root_units, get_base_units, prefixed units, compatible-unit listings, number of active contexts) must equal what the model's stack "
              "implies; a failing activation must raise and change nothing; after unwinding, the battery must equal the one recorded before the first activation. "
              "Random sequences up to 25 operations and a shared-Context check (two registries, re-entry with other parameters) complete it.",
-        note="The former known finding (base-units cache across context stacks) is repaired in /repo (1d885d8) and checked like everything else. Units defined while a redefining context is active are C13's clause.",
+        note="The former known finding (base-units cache across context stacks) is repaired in /repo (1d885d8) and checked like everything else. Units defined while a redefining context is active are C13's clause. Later additions: per-call contexts (to/ito with a context name) in the operation alphabet; on_redefinition='raise' policy observed after every step.",
         design="5/C12"),
     "C13": dict(
         technique="model-based (stateful) testing with Hypothesis operation sequences: every answer of a long-lived registry is compared with the answer of a twin built fresh from the declarative state (differential against a fresh registry), each question put to an untouched copy of the twin; registry-isolation differential",
@@ -123,7 +123,7 @@ CHECKS = {
              "None, group edits, building and using a second registry). After each state change a twin is built from the definition text plus the logged "
              "definitions and settings; subject and twin must agree on every answer, and a brand-new registry replays the final state. A second tier does the "
              "same on the bundled registry (contexts and systems), a third checks that nothing done to a second registry changes the first.",
-        note="Three known findings are excluded by construction/narrow class: units from define() missing in compatible-unit listings, definitions made inside a redefining context, double prefixes (the base-units cache across context stacks is repaired in /repo, 1d885d8). Deep copy is used to hand every question an untouched twin.",
+        note="Three known findings are excluded by construction/narrow class: units from define() missing in compatible-unit listings, definitions made inside a redefining context, double prefixes (the base-units cache across context stacks is repaired in /repo, 1d885d8). Deep copy is used to hand every question an untouched twin. Later additions: motifs (enter/leave redefining context, ask-define-ask, failing activation then retry, default_system switches, API context with keyword parameter, to_compact around a late prefix).",
         design="5/C13"),
     "C14": dict(
         technique="complete enumeration of every unit x every declared system against allowed-unit sets and exact factors from an independent definition reader; Hypothesis compound quantities, generated systems (both rule forms, power-of-root units) and model-based group/system edit histories checked against an own closure model",
@@ -133,7 +133,7 @@ CHECKS = {
              "sys.<system>.<name> attribute resolution and dir(), generated systems with 'new' and 'new:old' rules (incl. liter/hectare/gallon/barn as new "
              "base units) are sampled. Group graphs with 'using' chains undergo random add/remove-units/groups histories incl. shortcut-then-cut shapes and "
              "system group edits; members, system members and group/system-restricted compatible units are compared with an own transitive closure after every edit; cyclic 'using' must be refused.",
-        note="Compound quantities under square-root based systems (Planck, atomic) with total exponent > 2 are skipped: intermediate float products underflow. A group using itself is accepted by pint and loops forever (not in the statement; never generated).",
+        note="Compound quantities under square-root based systems (Planck, atomic) with total exponent > 2 are skipped: intermediate float products underflow. A group using itself is accepted by pint and loops forever (not in the statement; never generated). Later additions: default system asked right after an explicit-system query; partial read views in group histories.",
         design="5/C14"),
     "C15": dict(
         technique="Hypothesis quantities over the whole registry x every rewriting helper and its in-place twin, with value/dimension oracles from an independent definition reader (exact in the Fraction registry), an R-based proportionality predicate for to_reduced_units and prefix arithmetic for to_compact; registries with auto_reduce_dimensions / autoconvert_to_preferred",
@@ -143,7 +143,7 @@ CHECKS = {
              "functional one. to_reduced_units may keep no two units with proportional dimension; to_compact may change exactly one decimal prefix, must bring "
              "a single first-power unit into [1,1000) when the prefix exists (also for uncertain magnitudes on prefixed units) and return dimensionless/0/NaN/inf "
              "unchanged. Products and quotients in auto_reduce_dimensions / autoconvert_to_preferred registries are checked the same way.",
-        note="Two known findings: to_compact AssertionError for names with two readings (rads, dtex); to_reduced_units with non-terminating merged exponents in float/Decimal registries. to_preferred is not run in the Decimal registry (the MIP solver rejects Decimal).",
+        note="Two known findings: to_compact AssertionError for names with two readings (rads, dtex); to_reduced_units with non-terminating merged exponents in float/Decimal registries. to_preferred is not run in the Decimal registry (the MIP solver rejects Decimal). Later additions: pairs of dimensionless units count as mergeable; float-range domain restriction.",
         design="5/C15"),
     "C16": dict(
         technique="Hypothesis over a recipe table covering the handled NumPy functions/ufuncs/methods (names read at run time): metamorphic relation (same physical arrays in two unit assignments) + differential against NumPy on root magnitudes with a semantic-class dimension oracle; error-clause enumeration; offset-unit cases compared with the operator forms",
@@ -153,7 +153,7 @@ CHECKS = {
              "functions are compared in their own unit only; order/equality-sensitive ones use bit/byte/KiB so that re-expression is exact. Every same-dimension "
              "slot is also filled with another dimension (must raise DimensionalityError); offset-unit arrays are run through 16 operations in both registry "
              "modes and operand orders and compared with the operator form; inputs must be unchanged after non in-place calls; names without a recipe are listed in evidence.",
-        note="23 known-finding classes with two root causes: (1) mod/remainder/fmod/floor_divide do not convert their operands (pinned by the existing test-suite), (2) the ufunc implementations bypass the offset-unit rules. Functions without a recipe are reported, not claimed.",
+        note="23 known-finding classes with two root causes: (1) mod/remainder/fmod/floor_divide do not convert their operands (pinned by the existing test-suite), (2) the ufunc implementations bypass the offset-unit rules. Functions without a recipe are reported, not claimed. Later additions: optional unit arguments given late (clip/nan_to_num/max/min/sum initial), reductions with axis+where, quantity exponents; recipes referenced by name.",
         design="5/C16"),
     "C17": dict(
         technique="Hypothesis-generated signatures, unit specifications, call shapes and arguments for ureg.wraps / ureg.check, checked against an independent re-implementation of the documented contract with exact factors from an independent definition reader; enumeration of decoration-time errors",
@@ -163,7 +163,7 @@ CHECKS = {
              "function must see exactly the expected Fractions (None slots: the identical object), the return value must carry the declared or derived units, "
              "errors must be DimensionalityError / ValueError as documented. ureg.check is exercised the same way (dimension strings, units, containers, None). "
              "Count mismatches and wrong specification types must be rejected at decoration time (enumerated).",
-        note="Keyword-only/variadic parameters are outside the documented contract. An undefined reference in a wraps specification is only detected at call time (observation; the statement promises decoration-time rejection for count mismatches only).",
+        note="Keyword-only/variadic parameters are outside the documented contract. An undefined reference in a wraps specification is only detected at call time (observation; the statement promises decoration-time rejection for count mismatches only). Later additions: quotient and negative-power references in argument and return specs.",
         design="5/C17"),
     "C18": dict(
         technique="Hypothesis round-trip testing (pickle protocols 0-5, copy, deepcopy, to_tuple/from_tuple) of quantities, units, measurements, unit containers, parser helpers and every pint exception class, with application-registry swaps between unpickles; enumeration-by-generation of cross-registry operator pairs; op-sequence testing of a deep-copied registry pair; differential of the lazy default registry against an explicit one in fresh interpreters",
@@ -173,7 +173,7 @@ CHECKS = {
              "must keep type, public fields and message. Every binary operator and ordering between Quantity/Unit objects of two registries (fresh, deep-copied, "
              "application) must raise ValueError. Edits on either side of a deep-copied pair (definitions, contexts, groups, systems, default system/format) must "
              "never change the other side's battery, and objects reached through the copy must belong to it. The lazily built default registry must answer like an explicit one.",
-        note="Round-trip equality is judged on content, not with == (unpickled objects belong to the application registry by design). Unit ** Quantity and in-place operators on Units are not operations and are skipped.",
+        note="Round-trip equality is judged on content, not with == (unpickled objects belong to the application registry by design). Unit ** Quantity and in-place operators on Units are not operations and are skipped. Later additions: Measurements in the ownership list of deep copies, both ways of replacing the application registry.",
         design="5/C18"),
     "C19": dict(
         technique="Hypothesis over constructor forms x unit pairs x values/errors over 60 decades (oracle: the numbers supplied and the slope from an independent definition reader); Hypothesis expression trees over independent and repeated measurements against an own first-order propagation model (partial derivatives per source variable); notation and format round-trips",
@@ -185,7 +185,7 @@ CHECKS = {
              "dimension and standard deviation must agree (1e-7 of the uncancelled contributions), dimension mismatches must raise. All +/- and a(b) notations x sign "
              "x exponent must parse to the measurement built from the same numbers; all format specs must render without altering the object, plain-text ones parse back "
              "within the printed precision. Sampling only.",
-        note="First-order propagation is the contract of the uncertainties package; higher-order effects are outside the model. Format round-trips are judged at the printed precision (1-2 significant digits of the uncertainty).",
+        note="First-order propagation is the contract of the uncertainties package; higher-order effects are outside the model. Format round-trips are judged at the printed precision (1-2 significant digits of the uncertainty). Later additions: negative relative/Quantity errors, prefixed source units, unit-rewriting helpers on measurements compared with the plain quantity.",
         design="5/C19"),
     "C20": dict(
         technique="complete enumeration of an independently curated table of ~260 standard values x spellings x {Fraction, float} registries (differential oracle: the table)",
@@ -193,7 +193,7 @@ CHECKS = {
              "troy/apothecary, pressure/energy/power units, CGS, information, temperature probe points, CODATA 2022 values) is converted to an SI base-unit "
              "expression and compared with the tabulated value: == in the Fraction registry for exact entries, 1e-45 for pi-dependent ones, 10x CODATA "
              "uncertainty for derived constants, ulp tolerance in float; names, symbols and spellings are checked too. The table is finite and enumerated completely.",
-        note="The table was written offline from memory of the standards and cross-checked by consistency relations; units without an international definition are left out.",
+        note="The table was written offline from memory of the standards and cross-checked by consistency relations; units without an international definition are left out. Later additions: prefix symbols on bar/bit/byte before and after first use, explicit-system queries interleaved with default-system ones (SI base units required).",
         design="5/C20"),
 }
 
